@@ -75,6 +75,8 @@ func genOpt(r *hlib.Rand) *big.Int {
 		return new(big.Int).Add(pow2(31), big.NewInt(int64(1+r.Intn(4)))) // wraps to a negative int32
 	case 6:
 		return new(big.Int).SetUint64(r.U64() & 0xffffffff)
+	case 7: // a valid option in the low bits only: accepted if the code truncated to 8 / 16 / 24 bits
+		return new(big.Int).Add(pow2(uint(8*(1+r.Intn(3)))), big.NewInt(int64(1+r.Intn(4))))
 	default:
 		return big.NewInt(int64(1 + r.Intn(4)))
 	}
@@ -116,6 +118,10 @@ func genWeights(r *hlib.Rand) [][2]*big.Int {
 		return [][2]*big.Int{{genOpt(r), genU64(r)}, {genOpt(r), genU64(r)}}
 	case 12:
 		return mk(4, 100)
+	case 13: // a valid weight in the low bits only
+		return [][2]*big.Int{{big.NewInt(1), new(big.Int).Add(pow2(uint(8*(1+r.Intn(7)))), big.NewInt(100))}}
+	case 14:
+		return [][2]*big.Int{{big.NewInt(1), big.NewInt(60)}, {big.NewInt(2), new(big.Int).Add(pow2(32), big.NewInt(40))}}
 	default:
 		a := int64(1 + r.Intn(99))
 		return mk(int64(1+r.Intn(2)), a, int64(3+r.Intn(2)), 100-a)
